@@ -265,8 +265,43 @@ pub proof fn lemma_unconditional(a0: AArena<2>, a: AArena<2>, root: usize, b: Se
         }
     }
 }
-// every node below the root carries a verdict (nothing is Indeterminate): a second run of the elimination finds only cached states
+// every node below the root that the traversal can reach - no proper ancestor other than the root is cached infeasible - carries a verdict (is not
+// Indeterminate): a second run of the elimination finds only cached states
+pub open spec fn clean_above<const K: usize>(a: AArena<K>, root: usize, i: usize) -> bool {
+    forall|y: usize| #![trigger desc(a, y, i)] y != root && desc(a, y, i) ==> !(a[y].value.state is Infeasible)
+}
 pub open spec fn all_decided(a: AArena<2>, root: usize) -> bool {
-    forall|i: usize| #![trigger a[i].value] a.dom().contains(i) && i != root ==> !(a[i].value.state is Indeterminate)
+    forall|i: usize| #![trigger a[i].value] a.dom().contains(i) && i != root && clean_above(a, root, i) ==> !(a[i].value.state is Indeterminate)
+}
+// the proper ancestors (other than the root and the node in progress) of a visited or waiting node are not cached infeasible
+pub proof fn lemma_el_ancestors_clean<const K: usize>(a: AArena<K>, root: usize, s: Seq<DfsNodeData>, vis: Set<usize>, ex: usize, d0: Set<usize>, n: usize, y: usize, f: nat)
+    requires el_inv(a, root, s, vis, ex, d0), tracked(s, vis, n), a.dom().contains(n), is_desc(a, y, n, f), y != root, y != ex
+    ensures !(a[y].value.state is Infeasible)
+    decreases f
+{
+    reveal(el_inv);
+    let p1 = a[n].parent.unwrap();
+    assert(a[n].parent.unwrap() == p1);
+    if p1 != y {
+        assert(n != root);     // the root has no parent
+        assert(vis.contains(p1)) by {
+            if vis.contains(n) { } else { let k = choose|k: int| 0 <= k < s.len() && (#[trigger] s[k]).index == n; }
+        }
+        assert(a.dom().contains(p1));
+        lemma_el_ancestors_clean(a, root, s, vis, ex, d0, p1, y, (f - 1) as nat);
+    }
+}
+pub proof fn lemma_el_clean_above<const K: usize>(a: AArena<K>, root: usize, s: Seq<DfsNodeData>, vis: Set<usize>, d0: Set<usize>, n: usize)
+    requires el_inv(a, root, s, vis, n, d0), vis.contains(n), a.dom().contains(n)
+    ensures clean_above(a, root, n)
+{
+    assert forall|y: usize| #![trigger desc(a, y, n)] y != root && desc(a, y, n) implies !(a[y].value.state is Infeasible) by {
+        let f = choose|f: nat| is_desc(a, y, n, f);
+        reveal(el_inv);
+        let d = choose|d: Map<usize, nat>| ranked(a, d);
+        lemma_desc_rank(a, d, y, n, f);
+        assert(y != n);
+        lemma_el_ancestors_clean(a, root, s, vis, n, d0, n, y, f);
+    }
 }
 // ---- end elim_region_spec ----
